@@ -100,7 +100,9 @@ class C14(props.Prop):
     rule = (
         'case = one whole simulated run of the real CLI with a swarm-random '
         'ordered sequence of mutator / group / --disable-all options (single '
-        'options, ordered pairs, longer sequences) on an input with or '
+        'options, ordered pairs, longer sequences; every third case is '
+        'systematic: each single option once, then the ordered pairs in a '
+        'fixed order - the thorough tier reaches all of them) on an input with or '
         'without declarations of each theory, all strategies; the set of '
         'mutator classes whose filter/mutations/global_mutations were called '
         'during the run is compared with a reference model of option '
@@ -174,6 +176,27 @@ class C14(props.Prop):
         n = 0 if k < 0.05 else (1 if k < 0.3 else (2 if k < 0.6 else
                                                    rng.randint(3, 8)))
         opts = [one() for _ in range(n)]
+        # every third case is systematic: all single options first, then all
+        # ordered pairs in lexicographic order (the quick tier reaches a few
+        # hundred pairs, the thorough tier all of them)
+        idx = getattr(self, 'current_index', None)
+        spec['systematic'] = None
+        if idx is not None and idx % 3 == 0:
+            singles = ['--disable-all'] + [f'--{x}{g}' for g in groups
+                                           for x in ('', 'no-')] + \
+                [f'--{x}{o}' for o in names for x in ('', 'no-')]
+            j = idx // 3
+            n1 = len(singles)
+            if j < n1:
+                opts = [singles[j]]
+                spec['systematic'] = 'single'
+            elif j - n1 < n1 * n1:
+                a, b = divmod(j - n1, n1)
+                # spread over the whole table instead of starting with
+                # n1 pairs that all begin with --disable-all
+                a = (a * 37 + b) % n1
+                opts = [singles[a], singles[b]]
+                spec['systematic'] = 'pair'
         spec['opts'] += opts
         spec['mut_opts'] = opts
         spec['sched']['line_gap'] = None
@@ -187,6 +210,8 @@ class C14(props.Prop):
         spec['choices'] = res.choices
         rec = res.rec
         reg = mutator_registry()
+        if spec.get('systematic'):
+            v.probes['systematic.' + spec['systematic']] += 1
         toks = reftok.tokenize(spec['input'])
         decl = declares(toks)
         enabled, group_set = option_model(spec['opts'], reg)
